@@ -229,7 +229,13 @@ impl Lower<'_> {
     fn leading(&self, pos: BytePos) -> Vec<String> {
         self.comments
             .get_leading(pos)
-            .map(|v| v.iter().map(|c| c.text.to_string()).collect())
+            .map(|v| {
+                // block comments only: the leading `// ...` notice is not documentation
+                v.iter()
+                    .filter(|c| c.kind == swc_common::comments::CommentKind::Block)
+                    .map(|c| c.text.to_string())
+                    .collect()
+            })
             .unwrap_or_default()
     }
 
